@@ -172,6 +172,13 @@ def wt_cases(kmax):
                         if out == "n" and advpos is None:
                             continue
                         yield ("wt", "single", (kind,), (out,), (0,), npre, (dform, advpos))
+    # every input finished strictly before a deadline that is "now" or already behind the call (timedelta(0), a negative
+    # timedelta, an absolute time <= now): the input finished before the deadline, so its outcome is the answer
+    for dform in ("late-tdzero", "late-neg", "late-absnow", "late-abspast"):
+        for out in OUTCOMES:
+            yield ("wt", "single", ("fut",), (out,), (0,), 1, (dform, None))
+        for outs in itertools.product(OUTCOMES, repeat=2):
+            yield ("wt", "list", ("fut",) * 2, outs, (0, 1), 2, (dform, None))
     for k in range(2, kmax + 1):
         for outs in itertools.product(OUTCOMES, repeat=k):
             for order in itertools.permutations(range(k)):
@@ -520,8 +527,18 @@ async def run_wt(R, case):
     for i in order[:npre]:
         inps[i].complete()
     target = inps[0].obj if form == "single" else [x.obj for x in inps]
+    if dform.startswith("late-"):
+        import datetime
+        from tornado.ioloop import IOLoop
+        await asyncio.sleep(1.0)     # the inputs finished one (virtual) second ago
+        now = IOLoop.current().time()
+        deadline = {"late-tdzero": datetime.timedelta(0), "late-neg": datetime.timedelta(seconds=-0.5),
+                    "late-absnow": now, "late-abspast": now - 0.5}[dform]
+        R.ctx.count("deadline_not_after_call_cases")
+    else:
+        deadline = clock.arg((dform, 0))
     try:
-        out = gen.with_timeout(clock.arg((dform, 0)), target)
+        out = gen.with_timeout(deadline, target)
     except BaseException as e:
         for x in inps:
             if asyncio.iscoroutine(x.obj):
